@@ -976,6 +976,182 @@ mod progs {
     }
 }
 
+// ---------------------------------------------------------------------------------------------
+// `nlrule` mode: tie of Model/NewlineRule.lean to the real parser. Random token-class sequences of the modelled
+// fragment with random line breaks are rendered to text and parsed by the real `parse_cst`; output line:
+// `P \t classes \t nlbits \t shape-of-the-real-green-tree \t number of parser errors`
+
+mod nlrule {
+    use super::Rng;
+    use mimium_lang::compiler::parser::green::{GreenNode, GreenNodeArena, GreenNodeId};
+    use mimium_lang::compiler::parser::{PreParsedTokens, parse_cst, preparse, tokenize};
+
+    fn text_of(c: char) -> &'static str {
+        match c {
+            'a' => "x",
+            'm' => "-",
+            '2' => "|>",
+            '3' => "||",
+            '4' => "&&",
+            '5' => "==",
+            '6' => "<",
+            '8' => "*",
+            '9' => "^",
+            'X' => "@",
+            '(' => "(",
+            ')' => ")",
+            '[' => "[",
+            ']' => "]",
+            '.' => ".",
+            ',' => ",",
+            _ => "?",
+        }
+    }
+
+    fn gen_expr(r: &mut Rng, d: usize, out: &mut String) {
+        if d == 0 {
+            out.push('a');
+            return;
+        }
+        match r.below(12) {
+            0 | 1 => out.push('a'),
+            2 | 3 | 4 => {
+                gen_expr(r, d - 1, out);
+                out.push(*r.pick(&['2', '3', '4', '5', '6', '8', '9', 'X', 'm', 'm']));
+                gen_expr(r, d - 1, out);
+            }
+            5 => {
+                out.push('m');
+                gen_expr(r, d - 1, out);
+            }
+            6 | 7 => {
+                gen_expr(r, d - 1, out);
+                out.push('(');
+                let n = r.below(3);
+                for i in 0..n {
+                    if i > 0 {
+                        out.push(',');
+                    }
+                    gen_expr(r, d - 1, out);
+                }
+                if n > 0 && r.chance(1, 6) {
+                    out.push(',');
+                }
+                out.push(')');
+            }
+            8 => {
+                out.push('(');
+                let n = 1 + r.below(3);
+                for i in 0..n {
+                    if i > 0 {
+                        out.push(',');
+                    }
+                    gen_expr(r, d - 1, out);
+                }
+                if r.chance(1, 6) {
+                    out.push(',');
+                }
+                out.push(')');
+            }
+            9 => {
+                out.push('[');
+                let n = r.below(3);
+                for i in 0..n {
+                    if i > 0 {
+                        out.push(',');
+                    }
+                    gen_expr(r, d - 1, out);
+                }
+                out.push(']');
+            }
+            10 => {
+                gen_expr(r, d - 1, out);
+                out.push('.');
+                out.push('a');
+            }
+            _ => {
+                gen_expr(r, d - 1, out);
+                out.push('[');
+                gen_expr(r, d - 1, out);
+                out.push(']');
+            }
+        }
+    }
+
+    fn shape(id: GreenNodeId, arena: &GreenNodeArena, pre: &PreParsedTokens, out: &mut String) {
+        match arena.get(id) {
+            GreenNode::Token { token_index, .. } => {
+                let pos = pre.token_indices.iter().position(|&t| t == *token_index).unwrap_or(99999);
+                out.push_str(&pos.to_string());
+            }
+            GreenNode::Internal { kind, children, .. } => {
+                out.push_str(&format!("{:?}(", kind));
+                for (i, &c) in children.iter().enumerate() {
+                    if i > 0 {
+                        out.push(' ');
+                    }
+                    shape(c, arena, pre, out);
+                }
+                out.push(')');
+            }
+        }
+    }
+
+    pub fn run(seed: u64, n: usize, out: &mut impl std::io::Write) {
+        let mut r = Rng::new(seed);
+        for _ in 0..n {
+            let mut cls = String::new();
+            let ns = 1 + r.below(3);
+            for _ in 0..ns {
+                let d = r.below(4) as usize;
+                gen_expr(&mut r, d, &mut cls);
+            }
+            // occasionally damage the sequence (error paths: only the error flag is compared)
+            let mut cs: Vec<char> = cls.chars().collect();
+            if r.chance(1, 10) && !cs.is_empty() {
+                let i = r.below(cs.len() as u64) as usize;
+                if r.chance(1, 2) {
+                    cs.remove(i);
+                } else {
+                    cs.insert(i, *r.pick(&[')', ']', ',', '.', '6', '(']));
+                }
+            }
+            if cs.is_empty() {
+                continue;
+            }
+            let p_nl = [0u64, 1, 3, 6][r.below(4) as usize];
+            let mut bits = String::new();
+            let mut src = String::new();
+            for (i, c) in cs.iter().enumerate() {
+                let nl = i > 0 && r.below(10) < p_nl;
+                bits.push(if nl { '1' } else { '0' });
+                if i > 0 {
+                    src.push_str(if nl { "\n" } else { " " });
+                }
+                src.push_str(text_of(*c));
+            }
+            let src2 = src.clone();
+            let res = std::panic::catch_unwind(move || {
+                let toks = tokenize(&src2);
+                let pre = preparse(&toks);
+                let (root, arena, _t, errs) = parse_cst(toks.clone(), &pre);
+                let mut sh = String::new();
+                shape(root, &arena, &pre, &mut sh);
+                (sh, errs.len(), pre.token_indices.len())
+            });
+            let cls: String = cs.iter().collect();
+            match res {
+                Ok((sh, nerr, ntok)) => {
+                    // Eof may or may not be part of the preparsed stream; the class string has no Eof
+                    let _ = ntok;
+                    writeln!(out, "P\t{}\t{}\t{}\t{}", cls, bits, sh, nerr).unwrap()
+                }
+                Err(_) => writeln!(out, "P\t{}\t{}\tPANIC\t1", cls, bits).unwrap(),
+            }
+        }
+    }
+}
+
 fn main() {
     let args: Vec<String> = std::env::args().skip(1).collect();
     let stdout = std::io::stdout();
@@ -1057,6 +1233,11 @@ fn main() {
                 let src = g.program();
                 judge(&format!("gen/{seed}/{i}"), "gen", &src, &None, &cfgs, &mut out);
             }
+        }
+        Some("nlrule") => {
+            let seed: u64 = args[1].parse().unwrap();
+            let n: usize = args[2].parse().unwrap();
+            nlrule::run(seed, n, &mut out);
         }
         Some("docs") => {
             let seed: u64 = args[1].parse().unwrap();
